@@ -1,6 +1,7 @@
 import JediModel.Proto
 import JediModel.Model.Recursion
 import JediModel.Model.Mro
+import JediModel.Model.StarImports
 import JediModel.Gen.C15
 open Lean Proto JediModel.Recursion
 
@@ -75,6 +76,20 @@ def handle (j : Json) : Json :=
         | .ok (m', r, w) => go m' vs (jobj [("r", jarr (r.map jnat)), ("bodies", jnat w.bodies), ("calls", jnat w.calls)] :: acc)
         | .error e => (jobj [("error", jstr (errStr e))] :: acc).reverse
     jarr (go Memo.empty (nats j "roots") [])
+  | "star" =>
+    -- ModuleValue.star_imports() of the roots, one after the other on one memo; shapes from the source
+    let impL := (arr j "imports").map fun b => (asArr b).map asNat
+    let cfg : JediModel.StarImports.Cfg :=
+      { «default» := JediModel.Gen.C15.starDefault, skipSelf := JediModel.Gen.C15.starSkipSelf }
+    let fuel := nat j "fuel"
+    let rec goStar (m : Memo (List Nat)) (roots : List Nat) (acc : List Json) : List Json :=
+      match roots with
+      | [] => acc.reverse
+      | v :: vs =>
+        match JediModel.StarImports.starEval cfg (nthList impL) fuel m v with
+        | .ok (m', r, w) => goStar m' vs (jobj [("r", jarr (r.map jnat)), ("calls", jnat w.calls)] :: acc)
+        | .error e => (jobj [("error", jstr (errStr e))] :: acc).reverse
+    jarr (goStar Memo.empty (nats j "roots") [])
   | "guard" =>
     let depsL := (arr j "deps").map fun b => (asArr b).map asNat
     match evalGuard (nthList depsL) (nat j "fuel") [] (nat j "root") with
